@@ -32,11 +32,11 @@ theorem skipSpaces_allSpace (buf : Bytes) (fuel p : Nat) :
       · exact .nil p
 
 /-- a complete comment: `#`, `--` or `//` up to and including the first newline (or up to the end
-of input when there is none), or `/*` up to and including the first `*/` found from its start -/
+of input when there is none), or `/*`, a body, and `*/` (opener and closer do not share their `*`) -/
 def CompleteComment (buf : Bytes) (c : Comment) : Prop :=
   (isLineCommentStart (buf.drop c.pos) = true ∧
      ((∃ body, c.raw = body ++ [10] ∧ 10 ∉ body) ∨ (10 ∉ c.raw ∧ c.end = buf.length)))
-  ∨ (isBlockCommentStart (buf.drop c.pos) = true ∧ ∃ body, c.raw = body ++ [42, 47])
+  ∨ (isBlockCommentStart (buf.drop c.pos) = true ∧ ∃ body, c.raw = [47, 42] ++ body ++ [42, 47])
 
 theorem scanUntil_nl_min {r : Bytes} {k : Nat} (h : scanUntil [10] r = some k) : 10 ∉ r.take (k - 1) := by
   induction r generalizing k with
@@ -117,7 +117,23 @@ theorem skipComment_complete {buf : Bytes} {p n : Nat} {he : Bool} {raw : Bytes}
         cases h
         right
         obtain ⟨a, b, c⟩ := scanUntil_some hs
-        exact ⟨hb, (buf.drop p).take (n - 2), by simp only; rw [hraw', c]; simp⟩
+        refine ⟨hb, ((buf.drop p).drop 2).take (k - 2), ?_⟩
+        simp only
+        have hopen : (buf.drop p).take 2 = [47, 42] := by
+          unfold isBlockCommentStart at hb
+          match hbd : buf.drop p with
+          | [] => rw [hbd] at hb; simp at hb
+          | [_] => rw [hbd] at hb; simp at hb
+          | x :: y :: t =>
+            rw [hbd] at hb
+            simp only [Bool.and_eq_true, beq_iff_eq] at hb
+            have h1 : x = 47 := hb.1
+            have h2 : y = 42 := by simpa using hb.2
+            simp [h1, h2]
+        have hsplit : (buf.drop p).take (k + 2) = (buf.drop p).take 2 ++ ((buf.drop p).drop 2).take k := by
+          rw [Nat.add_comm, List.take_add]
+        rw [hraw', hsplit, hopen, c]
+        simp
       · simp at h
     · cases h; exact absurd rfl hn
 
